@@ -105,11 +105,16 @@ fn wrap_output(ch: &mut Choices, base: &str) -> MType {
         5 => MType::non_null(MType::list(MType::non_null(MType::named(base)))),
         6 => MType::list(MType::non_null(MType::named(base))),
         _ => {
-            // deep: [[T!]]!  or [[T]] or [[[T]!]]
-            match ch.below(3) {
+            // [T]!, and deep shapes whose nullability pattern is not a palindrome:
+            // [[T!]]!  [[T]]  [[[T]!]]  [[T!]!]  [[T]!]  [[T]]!
+            match ch.below(7) {
                 0 => MType::non_null(MType::list(MType::list(MType::non_null(MType::named(base))))),
                 1 => MType::list(MType::list(named)),
-                _ => MType::list(MType::list(MType::non_null(MType::list(MType::named(base))))),
+                2 => MType::list(MType::list(MType::non_null(MType::list(MType::named(base))))),
+                3 => MType::non_null(MType::list(named)),
+                4 => MType::list(MType::non_null(MType::list(MType::non_null(MType::named(base))))),
+                5 => MType::list(MType::non_null(MType::list(MType::named(base)))),
+                _ => MType::non_null(MType::list(MType::list(MType::named(base)))),
             }
         }
     }
@@ -129,7 +134,13 @@ fn wrap_input(ch: &mut Choices, base: &str, is_input_object: bool) -> MType {
         3 => MType::list(named),
         4 => MType::non_null(MType::list(MType::non_null(MType::named(base)))),
         5 => MType::list(MType::non_null(MType::named(base))),
-        _ => MType::list(MType::list(named)),
+        _ => match ch.below(5) {
+            0 => MType::list(MType::list(named)),
+            1 => MType::non_null(MType::list(named)),
+            2 => MType::list(MType::non_null(MType::list(MType::non_null(MType::named(base))))),
+            3 => MType::list(MType::non_null(MType::list(MType::named(base)))),
+            _ => MType::non_null(MType::list(MType::list(MType::non_null(MType::named(base))))),
+        },
     }
 }
 
@@ -210,8 +221,23 @@ pub fn gen_schema(ch: &mut Choices, o: &SchemaGenOpts) -> GenSchema {
     let interfaces: Vec<String> = pick_distinct(ch, INTERFACE_POOL, n_intf);
     let n_obj = ch.range(1, o.max_objects.max(1));
     let mut objects: Vec<String> = pick_distinct(ch, OBJECT_POOL, n_obj);
+    // identifiers of the TypeScript pool used in scalar mappings (Date, URL, Map) as names of schema types
+    // of every kind but scalar: such a type is declared under a local name (`__tmp_X`) and every reference
+    // to it must use that name
+    let mut enums = enums;
+    let mut inputs = inputs;
     if o.clash_names && ch.chance(1, 4) {
-        objects.push("Date".to_string());
+        match ch.below(4) {
+            0 | 1 => objects.push("Date".to_string()),
+            2 => {
+                if !scalars.iter().any(|s| s == "URL") {
+                    inputs.push("URL".to_string());
+                } else {
+                    inputs.push("Map".to_string());
+                }
+            }
+            _ => enums.push("Map".to_string()),
+        }
         labels.push("type-named-like-ts-global");
     }
     let n_unions = ch.below(3);
@@ -718,13 +744,17 @@ pub fn split_into_extensions(ch: &mut Choices, doc: &[MTsDef]) -> Vec<Vec<MTsDef
                 match t.kind {
                     Kind::Scalar => split!(directives),
                     Kind::Object | Kind::Interface => {
-                        // keep at least one field in the base so that `type X` (bare) is not
-                        // produced, and keep implements with the fields they need
+                        // keep at least one field in the base so that `type X` (bare) is not produced
                         if base.fields.len() > 1 {
                             let k = 1 + ch.below(base.fields.len());
                             ext.fields = base.fields.split_off(k);
                         }
                         split!(directives);
+                        // `extend type X implements I` / `extend interface X implements I`: a suffix of the
+                        // implemented interfaces may come from the extension (the merged type has them all)
+                        if ch.chance(1, 3) {
+                            split!(implements);
+                        }
                     }
                     Kind::Union => {
                         if base.members.len() > 1 {
@@ -749,6 +779,7 @@ pub fn split_into_extensions(ch: &mut Choices, doc: &[MTsDef]) -> Vec<Vec<MTsDef
                     }
                 }
                 let ext_empty = ext.directives.is_empty()
+                    && ext.implements.is_empty()
                     && ext.fields.is_empty()
                     && ext.members.is_empty()
                     && ext.values.is_empty()
@@ -787,4 +818,36 @@ pub fn split_into_extensions(ch: &mut Choices, doc: &[MTsDef]) -> Vec<Vec<MTsDef
     }
     files.retain(|f| !f.is_empty());
     files
+}
+
+/// Covariant narrowing for C01/C02: in some implementing objects, a nullable interface field of leaf or
+/// object type becomes non-null (`I.f: T`, `O.f: T!`). Responses for runtime type O then never carry null
+/// there, whichever fragment selected the field. The pairs are recorded in `schema.narrowed`.
+pub fn narrow_some_fields(ch: &mut Choices, gs: &mut GenSchema) {
+    let s = gs.schema.clone();
+    let mut narrowed = std::collections::BTreeSet::new();
+    for d in gs.doc.iter_mut() {
+        let MTsDef::Type(t) = d else { continue };
+        if t.kind != Kind::Object || t.implements.is_empty() || !ch.chance(1, 3) {
+            continue;
+        }
+        let imps = t.implements.clone();
+        let cands: Vec<usize> = (0..t.fields.len())
+            .filter(|&i| {
+                let f = &t.fields[i];
+                !f.ty.is_non_null() && imps.iter().any(|im| s.field(im, &f.name).map(|x| x.ty == f.ty).unwrap_or(false))
+            })
+            .collect();
+        if cands.is_empty() {
+            continue;
+        }
+        let i = *ch.pick(&cands);
+        t.fields[i].ty = MType::non_null(t.fields[i].ty.clone());
+        narrowed.insert((t.name.clone(), t.fields[i].name.clone()));
+    }
+    if !narrowed.is_empty() {
+        gs.schema = Schema::from_doc(&gs.doc);
+        gs.schema.narrowed = narrowed;
+        gs.labels.push("covariantly-narrowed-field");
+    }
 }
